@@ -20,6 +20,23 @@ const (
 
 var WrongType error = errors.New("operands have invalid type")
 
+var DivideByZero error = errors.New("division by zero")
+
+// isZeroInteger reports whether b is an int, uint64 or char of value zero:
+// dividing an integer by it, or taking a remainder, is an error (Go would
+// panic). A float dividend yields +-Inf or NaN instead.
+func isZeroInteger(b Sexp) bool {
+	switch tb := b.(type) {
+	case *SexpInt:
+		return tb.Val == 0
+	case *SexpUint64:
+		return tb.Val == 0
+	case *SexpChar:
+		return tb.Val == 0
+	}
+	return false
+}
+
 func IntegerDo(op IntegerOp, a, b Sexp) (Sexp, error) {
 	var ia *SexpInt
 	var ib *SexpInt
@@ -54,6 +71,9 @@ func IntegerDo(op IntegerOp, a, b Sexp) (Sexp, error) {
 	case ShiftRightLog:
 		return &SexpInt{Val: int64(uint(ia.Val) >> uint(ib.Val))}, nil
 	case Modulo:
+		if ib.Val == 0 {
+			return SexpNull, DivideByZero
+		}
 		return &SexpInt{Val: ia.Val % ib.Val}, nil
 	case BitAnd:
 		return &SexpInt{Val: ia.Val & ib.Val}, nil
@@ -87,6 +107,9 @@ func UintegerDo(op IntegerOp, ia *SexpUint64, b Sexp) (Sexp, error) {
 	case ShiftRightLog:
 		return &SexpUint64{Val: ia.Val >> ib.Val}, nil
 	case Modulo:
+		if ib.Val == 0 {
+			return SexpNull, DivideByZero
+		}
 		return &SexpUint64{Val: ia.Val % ib.Val}, nil
 	case BitAnd:
 		return &SexpUint64{Val: ia.Val & ib.Val}, nil
@@ -182,6 +205,9 @@ func NumericMatchFloat(op NumericOp, a *SexpFloat, b Sexp) (Sexp, error) {
 }
 
 func NumericMatchInt(op NumericOp, a *SexpInt, b Sexp) (Sexp, error) {
+	if op == Div && isZeroInteger(b) {
+		return SexpNull, DivideByZero
+	}
 	switch tb := b.(type) {
 	case *SexpFloat:
 		return NumericFloatDo(op, &SexpFloat{Val: float64(a.Val)}, tb), nil
@@ -196,6 +222,9 @@ func NumericMatchInt(op NumericOp, a *SexpInt, b Sexp) (Sexp, error) {
 }
 
 func NumericMatchUint64(op NumericOp, a *SexpUint64, b Sexp) (Sexp, error) {
+	if op == Div && isZeroInteger(b) {
+		return SexpNull, DivideByZero
+	}
 	switch tb := b.(type) {
 	case *SexpFloat:
 		return NumericFloatDo(op, &SexpFloat{Val: float64(a.Val)}, tb), nil
@@ -210,6 +239,9 @@ func NumericMatchUint64(op NumericOp, a *SexpUint64, b Sexp) (Sexp, error) {
 }
 
 func NumericMatchChar(op NumericOp, a *SexpChar, b Sexp) (Sexp, error) {
+	if op == Div && isZeroInteger(b) {
+		return SexpNull, DivideByZero
+	}
 	var res Sexp
 	switch tb := b.(type) {
 	case *SexpFloat:
@@ -262,6 +294,9 @@ func NumericMatchTime(op NumericOp, a *SexpTime, b Sexp) (Sexp, error) {
 	case Mult:
 		return &SexpTime{Tm: time.Unix(0, ua*ub)}, nil
 	case Div:
+		if ub == 0 {
+			return SexpNull, DivideByZero
+		}
 		return &SexpTime{Tm: time.Unix(0, ua/ub)}, nil
 	case Pow:
 		val := int64(math.Pow(float64(ua), float64(ub)))
